@@ -1713,11 +1713,38 @@ func c09FifthHunt(ctx *Ctx, r *Report) {
 			}
 			return true
 		})
+		// the helpers walkNumber calls (two levels) keep integers exact: one of them reads the bound as a big.Int
+		exact := false
+		seenHelpers := map[*types.Func]bool{}
+		var scanHelpers func(body ast.Node, depth int)
+		scanHelpers = func(body ast.Node, depth int) {
+			ast.Inspect(body, func(m ast.Node) bool {
+				c, ok := m.(*ast.CallExpr)
+				if !ok {
+					return true
+				}
+				f := callee(info, c)
+				if f == nil {
+					return true
+				}
+				if f.FullName() == "(*math/big.Int).Int64" {
+					exact = true
+				}
+				if f.Pkg() == fp.Types && !seenHelpers[f] && depth < 2 {
+					seenHelpers[f] = true
+					if hfd, _ := ctx.DeclOf(f); hfd != nil && hfd.Body != nil {
+						scanHelpers(hfd.Body, depth+1)
+					}
+				}
+				return true
+			})
+		}
+		scanHelpers(fd.Body, 0)
 		if constraints == 0 {
 			r.Undecided("anchor changed: jsonschema.walkNumber builds no constraint")
 		} else {
 			n++
-			r.Check(bad == 0, "frontier/integer-bounds-exact", "jsonschema.walkNumber reads the bounds of a number", fd.Pos(), "no constraint takes the float64 reading of a bound as it is",
+			r.Check(bad == 0 && exact, "frontier/integer-bounds-exact", "jsonschema.walkNumber reads the bounds of a number", fd.Pos(), "no constraint takes the float64 reading of a bound as it is",
 				fmt.Sprintf("%d constraint(s) of walkNumber take the result of (*big.Rat).Float64 whatever the kind of the number: `\"type\": \"integer\", \"maximum\": 9007199254740993` is bound by 9007199254740992 (the valid 2^53+1 is refused by Build() and by the Python option), and `\"maximum\": 9223372036854775807` gives `<= 9.223372036854776e+18` — truncated to int64, the Go package does not compile", bad))
 		}
 	}
